@@ -700,11 +700,9 @@ class InterpolatableFunction(ABC):
         # what to append to upper end
         if newMax > self._rangeMax and pointsMax > 0:
 
-            ## Point spacing to use at new upper end
-            spacing = np.abs(newMax - self._rangeMax) / pointsMax
-            appendPointsMax = np.arange(
-                self._rangeMax + spacing, newMax + spacing, spacing
-            )
+            ## pointsMax equally spaced points above the old upper end, the last one is
+            ## exactly newMax. arange can overshoot newMax by one spacing
+            appendPointsMax = np.linspace(self._rangeMax, newMax, int(pointsMax) + 1)[1:]
         else:
             appendPointsMax = np.array([])
 
